@@ -294,6 +294,119 @@ theorem completed_row_is_stored (d : Dialect) (db1 db2 db3 : Db) (hm : PromMono 
     db3.promises[i]? = some (promiseUpdate_set cmd r) :=
   C01.own_completion_is_stored d db1 db2 db3 hm hu i r hr cmd hid (.rows 1) hx rfl
 
+/-! ### the other kinds: an acknowledged registration, lock, schedule is in the database -/
+
+/-- **lock, acknowledged ⇒ stored.** `201` is answered only on a result reporting exactly one written row … -/
+theorem lock_ack_needs_row (req : AcquireLockReq) (t0 t : Time) (cpls : List Cpl) (l : Option Lock)
+    (h : (acquireLock req t0).next t cpls = .done (some (.lock S_CREATED l))) : cpls = [.store [.rows 1]] := by
+  simp only [acquireLock, Co.next] at h
+  split at h
+  · simp [errResp] at h
+  · rename_i n
+    split at h
+    · cases h
+    · split at h
+      · simp [S_CREATED, S_LOCK_ALREADY_ACQUIRED] at h
+      · rename_i h1 h0
+        have : n = 1 := by
+          have h0' : n ≠ 0 := by simpa using h0
+          omega
+        subst this; rfl
+  · cases h
+
+/-- … and then the lock row with exactly the requested holder, process, ttl and expiry is in the database -/
+theorem acquired_lock_is_stored (d : Dialect) (db db' : Db) (c : AcquireLockCmd) (n : Nat)
+    (h : db.exec (defs d) (.acquireLock c) = .ok (db', .rows n)) (hn : n ≠ 0) :
+    ∃ r ∈ db'.locks, r.resourceId = c.resourceId ∧ r.executionId = c.executionId ∧ r.processId = c.processId ∧
+      r.ttl = c.ttl ∧ r.expiresAt = c.expiresAt := by
+  simp only [Db.exec] at h
+  split at h
+  · injection h with h; injection h with hdb hr
+    injection hr with hr
+    subst hdb
+    have hpos : 0 < countP (fun r => r.resourceId == ((defs d).lockAcquire_row c).resourceId && (defs d).lockAcquire_conflictWhere r ((defs d).lockAcquire_row c)) db.locks := by omega
+    unfold countP at hpos
+    obtain ⟨r, hr⟩ := List.exists_mem_of_length_pos hpos
+    obtain ⟨hmem, hp⟩ := List.mem_filter.mp hr
+    simp only [Bool.and_eq_true, beq_iff_eq] at hp
+    refine ⟨(defs d).lockAcquire_conflictSet r ((defs d).lockAcquire_row c), ?_, ?_⟩
+    · rw [mem_updateWhere]
+      exact ⟨r, hmem, .inl ⟨by simp [hp.1, hp.2], rfl⟩⟩
+    · have h2 : r.executionId = c.executionId := by simpa [defs, lockAcquire_conflictWhere, lockAcquire_row] using hp.2
+      exact ⟨by simpa [defs, lockAcquire_conflictSet, lockAcquire_row] using hp.1, by simpa [defs, lockAcquire_conflictSet] using h2, rfl, rfl, rfl⟩
+  · injection h with h; injection h with hdb _
+    subst hdb
+    exact ⟨(defs d).lockAcquire_row c, by simp, rfl, rfl, rfl, rfl, rfl⟩
+
+/-- **schedule, acknowledged ⇒ stored.** -/
+theorem schedule_ack_needs_row (env : Env) (req : CreateScheduleReq) (t0 t t2 : Time) (cpls2 : List Cpl) (sc : Option Schedule)
+    (h : ((createSchedule env req t0).next t [.store [.schedules []]]).next t2 cpls2 = .done (some (.schedule S_CREATED sc))) :
+    cpls2 = [.store [.rows 1]] := by
+  simp only [createSchedule, Co.next, readScheduleRow] at h
+  cases hc : env.cronNext req.cron t with
+  | none => simp [hc, errResp, Co.next] at h
+  | some next =>
+    simp only [hc, Co.next] at h
+    split at h
+    · simp [errResp] at h
+    · rename_i n
+      split at h
+      · cases h
+      · split at h
+        · rename_i h1
+          have : n = 1 := by simpa using h1
+          subst this; rfl
+        · cases h
+    · cases h
+
+theorem created_schedule_is_stored (d : Dialect) (db db' : Db) (c : CreateScheduleCmd) (n : Nat)
+    (h : db.exec (defs d) (.createSchedule c) = .ok (db', .rows n)) (hn : n ≠ 0) :
+    ∃ r ∈ db'.schedules, r.id = c.id ∧ r.cron = c.cron ∧ r.promiseId = c.promiseId ∧ r.promiseTimeout = c.promiseTimeout ∧
+      r.nextRunTime = c.nextRunTime ∧ r.lastRunTime = none ∧ r.idempotencyKey = c.idempotencyKey ∧ r.createdOn = c.createdOn := by
+  simp only [Db.exec] at h
+  split at h
+  · injection h with h; injection h with _ hr
+    injection hr with hr
+    exact absurd hr.symm hn
+  · injection h with h; injection h with hdb _
+    subst hdb
+    exact ⟨(defs d).scheduleInsert_row c (db.seqS + 1), by simp, rfl, rfl, rfl, rfl, rfl, rfl, rfl, rfl⟩
+
+/-- **registration, acknowledged ⇒ stored.** A callback / subscription is answered `201` with the registration only
+    on a result reporting one inserted row … -/
+theorem registration_ack_needs_row (pid cb recv : String) (m : Mesg) (to : Int) (t t2 : Time) (r : PromiseRow) (cpls2 : List Cpl)
+    (p : Option Promise) (c : Option Callback)
+    (h : ((registerCallback pid cb recv m to).next t (gotRow r)).next t2 cpls2 = .done (some (.callback S_CREATED p c))) :
+    cpls2 = [.store [.rows 1]] := by
+  simp only [registerCallback, Co.next, gotRow, readPromiseRow] at h
+  by_cases hp : (r.toPromise.state == P_PENDING) = true
+  · simp only [hp, if_true, Co.next] at h
+    split at h
+    · simp [errResp] at h
+    · rename_i n
+      split at h
+      · cases h
+      · split at h
+        · rename_i h1
+          have : n = 1 := by simpa using h1
+          subst this; rfl
+        · cases h
+    · cases h
+  · simp [hp, Co.next, S_CREATED, S_OK] at h
+
+/-- … and then the registration row, with the requested id, awaited promise, receiver and message, is in the database -/
+theorem registered_callback_is_stored (d : Dialect) (db db' : Db) (c : CreateCallbackCmd) (n : Nat)
+    (h : db.exec (defs d) (.createCallback c) = .ok (db', .rows n)) (hn : n ≠ 0) :
+    ∃ r ∈ db'.callbacks, r.id = c.id ∧ r.promiseId = c.promiseId ∧ r.recv = c.recv ∧ r.mesg = c.mesg ∧ r.timeout = c.timeout := by
+  simp only [Db.exec] at h
+  split at h
+  · injection h with h; injection h with hdb _
+    subst hdb
+    exact ⟨(defs d).callbackInsert_row c, by simp, rfl, rfl, rfl, rfl, rfl⟩
+  · injection h with h; injection h with _ hr
+    injection hr with hr
+    exact absurd hr.symm hn
+
 /-! ### all or nothing -/
 
 /-- a creation writes the promise and, if it routes, its task in ONE command of ONE transaction -/
